@@ -119,7 +119,8 @@ func (l *Lexer) readLeadingComments() {
 				l.hadNewlineBefore = true
 				l.ReadChar()
 			}
-			text := strings.TrimRight(comment.String(), " ")
+			// (a source with CRLF line endings leaves a carriage return at the end)
+			text := strings.TrimRight(comment.String(), " \r")
 			if text == "" {
 				// "" stands for a blank line: keep an empty comment apart from it
 				text = " "
